@@ -186,6 +186,9 @@ func nextRunID() int64 {
 // Setup is called with the fresh environment before the run (to bind extra host values).
 type Setup func(e *env.Env)
 
+// InnerScope, when set, may return the scope (a descendant of the prepared environment) the run is to take place in.
+var InnerScope func(ctx context.Context, e *env.Env) *env.Env
+
 // Run executes a parsed tree once on a fresh environment with the host probes p, pv, pn bound.
 func Run(ctx context.Context, stmt ast.Stmt, setup Setup) (obs Obs, id int64) {
 	id = nextRunID()
@@ -226,6 +229,12 @@ func Run(ctx context.Context, stmt ast.Stmt, setup Setup) (obs Obs, id int64) {
 	e.Define("hnl", []int64(nil))
 	if setup != nil {
 		setup(e)
+	}
+	if InnerScope != nil {
+		// the script runs in a scope NESTED in the one the host bound its values in (and prepared by the hook, e.g. with an external lookup)
+		if in := InnerScope(ctx, e); in != nil {
+			e = in
+		}
 	}
 	res, err := runRecover(ctx, e, stmt)
 	obs = Obs{Top: map[string]V{}}
